@@ -4,6 +4,7 @@ import (
 	"context"
 	"encoding/json"
 	"fmt"
+	"github.com/vipnode/vipnode/v2/pool/balance"
 	"math/big"
 	"sort"
 	"strings"
@@ -21,6 +22,12 @@ func init() {
 		Doc:  "bursts of 2-8 overlapping vipnode_update / vipnode_peer / pool_addNode / duplicate-request calls from agents that share hosts and wallets (including two keep-alives of the same client and two copies of one signed request), interleaved at every store-operation boundary and at the in-transaction yield points of the badger driver (real optimistic conflicts); oracles: every balance holder's credit moved by what some one-at-a-time order of the acknowledged requests would move it (interval arithmetic over the charge), credit sum conserved, a nonce honoured at most once, every value handed out by a store unchanged by later operations; the same runs are repeated in a -race build with masked scheduler hand-offs",
 		Real: worldReal, Stub: worldStub,
 		Run: func(s *kernel.Sim) { runC10(s, "C10") },
+	})
+	Register(&Scenario{
+		Name: "c10_cold_start", Property: "C10", MaxSteps: 20000, Quick: 150, Thorough: 5000, Race: true, RaceOnly: true,
+		Doc:  "the first keep-alives a pool process ever bills (balance manager as pool.go has just built it) arrive at once from different clients, with as little harness between the requests as possible (no wrappers around the store besides the yield points): -race build only, the oracle is the race detector plus every keep-alive being acknowledged",
+		Real: worldReal, Stub: worldStub,
+		Run: runC10ColdStart,
 	})
 	Register(&Scenario{
 		Name: "c02_billing_conc", Property: "C02", MaxSteps: 30000, Quick: 250, Thorough: 20000,
@@ -282,6 +289,12 @@ func runC10(s *kernel.Sim, prop string, focus ...string) {
 			s.Violate("liveness", "setup never finishes", "setup ended %s", r)
 		}
 		return
+	}
+	if s.Choose("coldmanager", 2) == 1 {
+		// the burst is the first billing the pool process does (it was restarted: nodes and balances are in the store,
+		// the balance manager is as pool.go has just built it)
+		w.Pool.BalanceManager = balance.PayPerInterval(w.Dep, cfg.Interval, cfg.Price)
+		s.Probe("c10.burst_is_first_billing_of_the_process")
 	}
 	// --- state before the burst
 	holder := func(id string) string {
@@ -1163,4 +1176,64 @@ func runC06Conc(s *kernel.Sim) {
 		}
 	}
 	s.ProbeN("c06.refused_racing_owner", nRef)
+}
+
+// runC10ColdStart: see the scenario's Doc.
+func runC10ColdStart(s *kernel.Sim) {
+	cfg := WorldCfg{Driver: "memory", Hosts: 1 + s.Choose("hosts", 2), Clients: 2 + s.Choose("clients", 3), Wallets: 1, Interval: time.Second, Price: big.NewInt(1000), StoreYields: 3}
+	w := NewWorld(s, cfg)
+	for _, c := range []string{"store", "storeret", "txn", "postwrite"} {
+		s.SetYield(c, 0)
+	}
+	d := NewDirector(w)
+	setupDone := false
+	s.Go("director", func() {
+		for _, a := range w.Actors {
+			d.Connect(a, "", "", false)
+			w.Inner.AddNodeBalance(store.NodeID(a.ID), big.NewInt(1000000))
+		}
+		d.Advance(time.Duration(1+d.choose("adv", 50)) * time.Second)
+		setupDone = true
+	})
+	if r := s.Drive(kernel.DriveOpts{IdleCap: time.Hour}); r != kernel.Done || !setupDone {
+		if r != kernel.Stopped {
+			s.Violate("liveness", "setup never finishes", "setup ended %s", r)
+		}
+		return
+	}
+	// the pool process starts here as far as billing goes
+	w.Pool.BalanceManager = balance.PayPerInterval(w.Dep, cfg.Interval, cfg.Price)
+	s.SetYield("store", cfg.StoreYields)
+	s.SetYield("storeret", 1)
+	s.SetYield("op", 3)
+	host := w.Actors[0].ID
+	errs := make([]error, len(w.Actors)) // one slot per task: nothing of the harness is shared between them
+	acked := 0
+	for i, a := range w.Actors {
+		if a.IsHost {
+			continue
+		}
+		a := a
+		acked++
+		conn := w.Dial(a)
+		nonce := time.Now().UnixNano() + 1
+		s.Go("first."+a.Name, func() {
+			s.Gate(a.Name)
+			var resp pool.UpdateResponse
+			errs[i] = conn.Agent.Call(s.Ctx, &resp, "vipnode_update", a.Signed("vipnode_update", nonce, pool.UpdateRequest{PeerInfo: PeerInfos([]string{host}), BlockNumber: 2})...)
+		})
+	}
+	if r := s.Drive(kernel.DriveOpts{IdleCap: time.Minute}); r != kernel.Done {
+		if r != kernel.Stopped {
+			s.Violate("liveness", "first keep-alives never finish", "burst ended %s", r)
+		}
+		return
+	}
+	for i, err := range errs {
+		if err != nil {
+			s.Violate("state", "first keep-alive of a registered, funded client refused", "%s: %v", w.Actors[i].Name, err)
+		}
+	}
+	s.MarkNontrivial()
+	s.ProbeN("c10.cold_start_keepalives", acked)
 }
